@@ -98,6 +98,19 @@ PROPS = {
         "trusted": ["semantics given to Anchor's `Signer`, `address =`, `has_one`, `constraint =` and to Pinocchio's next_signer/verify_address/verify_constraint (WP/Model/Access.lean); "
                     "handlers are not executed (no SVM offline): a broken row is reported with the row as witness and no-failing-input-found"],
     },
+    "C14": {
+        "lean_modules": ["WP.Props.C14"],
+        "lean_support": [],
+        "families": [("afm", 40000, 2000000), ("hist", 12000, 300000), ("afc", 10000, 300000)],
+        "history": True,
+        "rule": "afm: the real FeeRateManager driven directly: new() (reference update) + four loop iterations (accumulator, total rate, bounded target, advance / advance-after-skip) + major-swap update over "
+                "boundary-biased valid constants (all group sizes dividing the spacing, control factor 0 / tiny / maximal, accumulator maximum 0 / around 10000 / u32::MAX / size), arbitrary stored variables "
+                "satisfying the invariant, all elapsed-time classes around filter / decay / 3600 s, both directions, zero liquidity, targets inside / at / beyond group boundaries; "
+                "hist: half of all pool histories are adaptive-fee pools (H af): per-step rate recomputed from the pre-swap oracle state by an independent implementation of the schedule, stored reference / "
+                "accumulator / major-swap timestamp rules, bounds, and every swap of a zero-control-factor pool replayed on a static-fee copy; afc: validate_constants; non-trivial = a step charged more than the static rate",
+        "trusted": ["the trade-enable refusal and the writing of the variables back to the Oracle account are handler code (swap.rs / v2): their guards are in the regenerated C04/C15 tables, the handlers are not executed",
+                    "the reference group index lies in [MIN_TICK/size, MAX_TICK/size] (it is always the group of an in-bounds current tick); outside it FeeRateManager::new can abort in sqrt_price_from_tick_index"],
+    },
     "C15": {
         "lean_modules": ["WP.Props.C15"],
         "lean_support": ["WP.Model.Access"],
